@@ -75,6 +75,7 @@ static void roundtrip_case(Rng &rng, int T, int c, int h, size_t n, bool oracle,
   const char *suite = "roundtrip";
   bytes key = rng.key16(), seed = rng.nzbuf(1 + rng.below(70)), plain = (g_files & 1) ? rng.padlike(n) : rng.buf(n);
   if (rng.below(5) == 0) { size_t sl = 55 + rng.below(10); seed = rng.nzbuf(sl); }
+  if (rng.below(9) == 0) { static const size_t longs[] = {119, 120, 255, 256, 257, 300, 511, 1000}; seed = rng.nzbuf(longs[rng.below(8)]); }   // seeds longer than any fixed buffer one might assume
   if (!g_carry_seeds.empty() && rng.below(12) == 0) { const std::string &cs = g_carry_seeds[rng.below((uint32_t)g_carry_seeds.size())]; seed.assign(cs.begin(), cs.end()); }
   if (force_seed) seed.assign(force_seed->begin(), force_seed->end());
   EncRes e = real_enc(T, c, h, key, seed, plain);
@@ -149,6 +150,14 @@ static void suite_ivs(Rng &rng) {
     EncRes e = real_enc(T, 2, 0, key, seed, plain); size_t body = 68; std::map<std::string, size_t> seen;
     for (size_t b = 0; b < 40; b++) { std::string ks((const char *)&e.file[body + 16 * b], 16); if (seen.count(ks)) { emitA(suite, "C18", "keystream block reused (blocks " + S((long)seen[ks]) + " and " + S((long)b) + ") in a CTR stream whose counter carries; seed=" + sd + " key=" + hex(key)); break; } seen[ks] = b; }
     emitO(suite, "senc 1 " + S(BSZ) + " 2 0 " + hex(key) + " " + hex(seed) + " " + hex(plain), hex(e.file)); }
+  // two long seeds that share their first 256 bytes, and seeds whose SHA-1 (the start IV) begins with a zero byte: the whole file is the specified one
+  { bytes pre = rng.nzbuf(256), sa = pre, sb = pre; bytes ta = rng.nzbuf(44), tb = rng.nzbuf(44); sa.insert(sa.end(), ta.begin(), ta.end()); sb.insert(sb.end(), tb.begin(), tb.end());
+    bytes key = rng.key16(), plain = rng.buf(40); int T = 2;
+    for (int c : {1, 2}) { EncRes a = real_enc(T, c, 0, key, sa, plain), b = real_enc(T, c, 0, key, sb, plain);
+      if (a.file == b.file) emitA(suite, "C18", "two different seeds (300 bytes, equal in the first 256) give byte-identical files c=" + S(c) + " key=" + hex(key));
+      emitO(suite, "senc " + S(T) + " " + S(BSZ) + " " + S(c) + " 0 " + hex(key) + " " + hex(sa) + " " + hex(plain), hex(a.file)); }
+    for (const char *zs : {"seed-244", "seed-245"}) { bytes sd((const unsigned char *)zs, (const unsigned char *)zs + strlen(zs)); for (int c : {1, 2, 3, 4}) { EncRes a = real_enc(T, c, 1, key, sd, plain);
+      emitO(suite, "senc " + S(T) + " " + S(BSZ) + " " + S(c) + " 1 " + hex(key) + " " + hex(sd) + " " + hex(plain), hex(a.file)); } } }
   for (int c = 1; c <= 4; c++) for (int T : {2, 3, 4, 11, 15, 16}) {
     if (T > 4 && c != 1 + T % 4 && !tier_thorough()) continue;
     bytes key = rng.buf(16), seed = rng.nzbuf(20);
@@ -245,6 +254,12 @@ static void suite_tamper(Rng &rng) {
     // every truncation length and a few extensions
     for (size_t l = 0; l < F.size(); l++) { bytes m(F.begin(), F.begin() + l); tamper_check(suite, tc, T, key, F, plain, m, "truncate to " + S((long)l), l % 13 == 0); }
     for (size_t add : {(size_t)1, (size_t)16, chunk}) { bytes m = F; bytes x = rng.buf(add); m.insert(m.end(), x.begin(), x.end()); tamper_check(suite, tc, T, key, F, plain, m, "extend by " + S((long)add), true); }
+    // re-tagging with a WEAKER key than the real one: the body is changed and the tag recomputed (with the real HMAC code) under the key cut at its
+    // first zero byte, under its first 8 bytes only, and under the all-zero key -- an attacker who knows part of the key must not get a valid tag
+    if (fi < 6) { bytes kz = key; { size_t z = 0; while (z < 16 && kz[z] != 0) z++; for (size_t j = z; j < 16; j++) kz[j] = 0; } bytes k8 = key; for (size_t j = 8; j < 16; j++) k8[j] = 0; bytes k0(16, 0);
+      for (const bytes &wk : {kz, k8, k0}) { if (wk == key) continue; bytes m = F; m[F.size() - 1] ^= 0x5a; if (F.size() > 60 + 20 * (size_t)T) m[50 + 20 * T] ^= 0x01;
+        unsigned char tag[64] = {0}; { MemFile mf(m); FILE *fp = mf.openr(); fseek(fp, 48, SEEK_SET); alignas(16) unsigned char kk[16]; memcpy(kk, wk.data(), 16); hmac hm; hm.gethmac((u8_t)h, kk, fp, tag); fclose(fp); }
+        memcpy(&m[10], tag, hlen_of(h)); tamper_check(suite, tc, T, key, F, plain, m, "body changed and tag recomputed under a weaker key " + hex(wk), true); } }
     // swaps: ciphertext blocks, chunks, IVs; insertion / deletion at header and chunk boundaries
     size_t body = 48 + 20 * (size_t)T, nb = (F.size() - body) / 16;
     for (size_t a = 0; a + 1 < nb; a++) { bytes m = F; for (int j = 0; j < 16; j++) std::swap(m[body + 16 * a + j], m[body + 16 * (a + 1) + j]); tamper_check(suite, tc, T, key, F, plain, m, "swap blocks", a == 0); }
@@ -445,6 +460,12 @@ static void suite_crash(Rng &rng) {
       if (stt == final) return;
       DecRes v = real_ver(T, key, stt);
       if (v.ok) emitA(suite, "C13", "partial output verifies (" + what + ") enc " + args + " state=" + hex(stt));
+      if (states % 5 == 0 && stt.size() < 60000) {      // the same state arriving through a pipe (a stream that cannot seek): still rejected
+        for (int dv = 0; dv < 2; dv++) { int pp[2]; if (pipe(pp) != 0) abort(); if (!stt.empty()) { ssize_t w = write(pp[1], stt.data(), stt.size()); (void)w; } close(pp[1]);
+          FILE *fi = fdopen(pp[0], "rb"); MemFile po; FILE *fo = dv ? po.openw() : NULL; memcpy(g_keybuf, key.data(), 16); Settings st((char)-1, (char)-1, true); bool ok;
+          trace_case(suite, std::string(dv ? "decrypt" : "verify") + " of a crash state through a pipe: " + what);
+          { runcrypt rc(fi, fo, g_keybuf, st, (u8_t)T); ok = dv ? rc.execute_decrypt(stt.size()) : rc.execute_verify(stt.size()); }
+          if (ok) emitA(suite, "C13", std::string("partial output ") + (dv ? "decrypts" : "verifies") + " when it is read through a pipe (" + what + ") enc " + args + " state=" + hex(stt)); } }
       if (states % 7 == 0) { DecRes d = real_dec(T, key, stt); if (d.ok) emitA(suite, "C13", "partial output decrypts (" + what + ") enc " + args + " state=" + hex(stt)); }
       if (states % 29 == 0) emitM(suite, "ver " + cfgs(T) + " " + hex(key) + " " + hex(stt), okclass(v.ok));
     };
